@@ -68,6 +68,7 @@ type pair struct {
 	tAccept   time.Duration // offset at which the accept is issued
 	tDial     time.Duration
 	size      int
+	late      int // >0: the dialler uses the connection again 6s later with this many bytes
 
 	issued   time.Duration
 	inj0     time.Duration
@@ -122,7 +123,14 @@ func runPair(s *session, p *pair, wg *sync.WaitGroup) {
 	go k.Trap(func() {
 		defer wg.Done()
 		time.Sleep(p.tDial)
-		o := r.Do(fmt.Sprintf("Dial(%d)[%s]", p.id, p.dir()), 60*time.Second, func() (any, error) {
+		o := r.Do(fmt.Sprintf("Dial(%d)[%s]", p.id, p.dir()), 90*time.Second, func() (any, error) {
+			if p.late > 0 {
+				// keep the connection, use it again more than 5s later with a large payload
+				if p.hostDials {
+					return h.HostDialEchoLate(s.cmd, p.id, p.size, 6*time.Second, p.late)
+				}
+				return s.cmd.Do("dial", fmt.Sprintf("%d:%d:%d:%d", p.id, p.size, int64(6*time.Second), p.late))
+			}
 			if p.hostDials {
 				return h.HostDialEcho(s.cmd, p.id, p.size)
 			}
@@ -147,6 +155,10 @@ func judgePair(r *h.Run, kind string, p *pair, coreWindow time.Duration) {
 	want := fmt.Sprintf("id=%d", p.id)
 	if p.err == nil && p.answer != want {
 		r.Violate("misroute", ctx, fmt.Sprintf("connection dialled for id %d was answered by %q", p.id, p.answer))
+		return
+	}
+	if p.err != nil && strings.Contains(p.err.Error(), "late use of the dialled connection") {
+		r.Violate("late-use-failed", ctx, fmt.Sprintf("the connection for id %d was established, but using it again 6s later with %d bytes failed: %v", p.id, p.late, p.err))
 		return
 	}
 	if p.err != nil && strings.Contains(p.err.Error(), "payload mismatch") {
@@ -243,6 +255,9 @@ func runBrokerPairs(r *h.Run, c h.Conf, kind string) {
 				p.tAccept, p.tDial = base+gap, base
 			}
 			p.size = []int{64, 0, 1, 1023, 4096, 70000, 300000}[w.Range("pairs/size", 7)]
+			if c.Proto == "netrpc" {
+				p.late = []int{0, 0, 1000, 300000, 1 << 20}[w.Range("pairs/late", 5)]
+			}
 			pairs = append(pairs, p)
 		}
 	}
@@ -300,6 +315,21 @@ func runBrokerPairs(r *h.Run, c h.Conf, kind string) {
 				r.Violate("misroute", "broker="+kind+" dispense reached another dispense's server object", fmt.Sprintf("tag %q returned twice", d.tag))
 			}
 			seen[d.tag] = true
+		}
+	}
+	// the first dispensed client is by now an old connection: a large argument
+	// and a large result must still go through completely
+	if r.Spec.P("fixed", "") != "1" || r.Spec.P("gap", "") == "4400ms" {
+		time.Sleep(time.Duration(w.Range("late/wait", 3)) * 3 * time.Second)
+		n := []int{1000, 400000, 1 << 20}[w.Range("late/size", 3)]
+		if r.Spec.P("fixed", "") == "1" {
+			n = 400000
+		}
+		lo := r.DoNoHang("Do(echo,late)", 90*time.Second, kind, func() (any, error) { return s.cmd.Do("echo", strings.Repeat("e", n)) })
+		if lo.Err != nil && w.InjectedTotal() < 10*time.Second && w.FaultCount("conn.rst") == 0 {
+			r.Violate("truncated-or-failed-late-call", "broker="+kind, fmt.Sprintf("a %d byte call on a dispensed client %v after it was dispensed failed: %v", n, w.Now(), lo.Err))
+		} else if lo.Err == nil && len(lo.Val.(string)) != n {
+			r.Violate("truncated-or-failed-late-call", "broker="+kind+" short", fmt.Sprintf("echo of %d bytes returned %d", n, len(lo.Val.(string))))
 		}
 	}
 	// the control connection still works
@@ -393,6 +423,9 @@ func init() {
 					for _, ord := range []string{"a", "d"} {
 						for _, gap := range []string{"0", "500ms", "1900ms", "4000ms"} {
 							out = append(out, sp("C08", fmt.Sprintf("fixed/%s/%s/%s/%s", tls, dir, ord, gap), seed, P("fixed", "1", "tls", tls, "dir", dir, "ord", ord, "gap", gap)))
+							if tls == "none" && gap == "0" && ord == "a" {
+								out = append(out, sp("C08", fmt.Sprintf("fixed-reuse/%s", dir), seed, P("fixed", "1", "tls", tls, "dir", dir, "ord", ord, "gap", gap, "reuse", "1", "reusedir", dir)))
+							}
 						}
 					}
 				}
@@ -542,6 +575,64 @@ func runC08(r *h.Run) {
 	}
 	for _, c := range hostConns {
 		c.Close()
+	}
+	// re-use of an ID after its listener was closed (server of our own on
+	// Broker.Accept, stopped, then accepted again), followed by a fresh ID
+	if c.TLS != "auto" && (r.Spec.P("reuse", "") == "1" || (r.Spec.P("fixed", "") != "1" && w.Range("reuse/on", 2) == 1)) && !noisy() {
+		hostAccepts := r.Spec.P("reusedir", "") == "h" || (r.Spec.P("reusedir", "") == "" && w.Range("reuse/dir", 2) == 0)
+		rid := uint32(1500)
+		rctx := fmt.Sprintf("broker=grpcmux id-reuse accept-side=%s", map[bool]string{true: "host", false: "plugin"}[hostAccepts])
+		establish := func(id uint32, round string) bool {
+			var stop func()
+			if hostAccepts {
+				st, err := h.HostAcceptOwn(s.cmd, id)
+				if err != nil {
+					r.Violate("lost-pair", rctx+" step="+round, fmt.Sprintf("Accept(%d) failed: %v", id, err))
+					return false
+				}
+				stop = st
+			} else if _, err := s.cmd.Do("acceptown", fmt.Sprint(id)); err != nil {
+				r.Violate("lost-pair", rctx+" step="+round, fmt.Sprintf("plugin Accept(%d) failed: %v", id, err))
+				return false
+			}
+			o := r.Do(fmt.Sprintf("ReuseDial(%d)[%s]", id, round), 60*time.Second, func() (any, error) {
+				if hostAccepts {
+					return s.cmd.Do("dial", fmt.Sprint(id))
+				}
+				return h.HostDialPing(s.cmd, id)
+			})
+			ok := true
+			switch {
+			case o.Hung:
+				r.Violate("hang", "op=Dial "+rctx+" step="+round, "dial never returned")
+				ok = false
+			case o.Err != nil:
+				if !noisy() {
+					r.Violate("lost-pair", rctx+" step="+round, fmt.Sprintf("dial of id %d failed: %v", id, o.Err))
+				}
+				ok = false
+			case o.Val.(string) != fmt.Sprintf("id=%d", id):
+				r.Violate("misroute", rctx+" step="+round, fmt.Sprintf("id %d answered by %q", id, o.Val))
+				ok = false
+			}
+			// close the listener again
+			if hostAccepts {
+				stop()
+			} else {
+				s.cmd.Do("stopown", fmt.Sprint(id))
+			}
+			time.Sleep(50 * time.Millisecond)
+			return ok
+		}
+		if establish(rid, "first") {
+			w.Probe("mux.id-reuse")
+			establish(rid, "reuse")
+			establish(rid+1, "fresh-after-reuse")
+		}
+		po := r.DoNoHang("Ping(after-reuse)", 60*time.Second, rctx, func() (any, error) { return nil, s.cp.Ping() })
+		if po.Err != nil && !noisy() {
+			r.Violate("main-conn-lost", rctx, fmt.Sprintf("ping after ID re-use failed: %v", po.Err))
+		}
 	}
 	s.kill()
 }
